@@ -20,11 +20,12 @@ import props_table as PT
 
 REPO = os.environ.get("VERIF_REPO", "/repo")
 JOBS = int(os.environ.get("VERIF_JOBS", "16"))
-BUILD = os.path.join(HERE, "build")
-REPLAYS = os.path.join(HERE, "replays")
-EVID = os.path.join(HERE, "evidence")
+# the three output directories can be redirected (used only by scripts/seeds_all.sh, which runs the checks against a scratch copy of the repository)
+BUILD = os.environ.get("VERIF_BUILD", os.path.join(HERE, "build"))
+REPLAYS = os.environ.get("VERIF_REPLAYS", os.path.join(HERE, "replays"))
+EVID = os.environ.get("VERIF_EVID", os.path.join(HERE, "evidence"))
 CXX = "clang++"
-BASE = ["-std=gnu++17", "-g", "-O1", "-fno-omit-frame-pointer", "-Wno-unused-parameter",
+BASE = ["-std=gnu++17", "-g", "-O1", "-fno-omit-frame-pointer", "-Wno-unused-parameter", "-I" + os.path.join(HERE, "harness/src"),
         "-I" + os.path.join(REPO, "include"), "-I/usr/include/eigen3", "-I" + os.path.join(HERE, "harness/include")]
 SAN = {
     "asan": ["-fsanitize=address,undefined", "-fno-sanitize-recover=undefined"],
@@ -75,9 +76,10 @@ def source_deps(src):
         except OSError:
             continue
         for m in re.finditer(r'#\s*include\s*"([^"]+)"', txt):
-            cand = os.path.join(inc, m.group(1))
-            if os.path.exists(cand):
-                todo.append(cand)
+            for base in (inc, os.path.join(HERE, "harness/src")):
+                cand = os.path.join(base, m.group(1))
+                if os.path.exists(cand):
+                    todo.append(cand)
     return sorted(seen)
 
 
@@ -341,6 +343,8 @@ def run_property(prop, tier):
         out = os.path.join(work, "w%03d.json" % idx)
         env = run_env()
         s = seed * 1000003 + 97 * idx + PT.prop_index(prop)
+        if j.get("fuzz"):
+            return run_fuzz_job(idx, j, exe, out, env, s)
         env["RC_PARAMS"] = "seed=%d max_success=%d max_size=%d max_discard_ratio=100" % (s, j["cases"], j.get("max_size", 100))
         cmd = [exe, "--prop", j.get("prop", prop), "--rc", "--out", out, "--replay-dir", REPLAYS,
                "--worker", str(j.get("worker", 0)), "--workers", str(j.get("workers", 1))] + kf_args
@@ -364,6 +368,64 @@ def run_property(prop, tier):
                 if time.time() - t1 > limit:
                     pr.kill(); pr.wait(); rc = None; break
         txt = open(logp, errors="replace").read()
+        return idx, j, rc, txt, out, time.time() - t1
+
+    def run_fuzz_job(idx, j, exe, out, env, s):
+        """libFuzzer campaign (or corpus replay when runs == 0) on the same check function; a fresh corpus directory seeded from corpus/<id>/"""
+        t1 = time.time()
+        if stop.is_set():
+            return idx, j, "skipped", "", out, 0.0
+        cdir = os.path.join(work, "corpus%03d" % idx)
+        os.makedirs(cdir, exist_ok=True)
+        src = os.path.join(HERE, j["corpus"])
+        for f in sorted(glob.glob(os.path.join(src, "*"))):
+            shutil.copy(f, cdir)
+        env["VERIF_FUZZ_STATS"] = out
+        env["VERIF_FUZZ_REPLAYS"] = REPLAYS
+        env["VERIF_FUZZ_TARGET"] = j["replay_target"]
+        cmd = [exe, cdir, "-runs=%d" % j["runs"], "-seed=%d" % (s % 2147483647 or 1), "-max_len=%d" % j["max_len"], "-print_final_stats=1",
+               "-artifact_prefix=%s/%s-%s-" % (REPLAYS, prop, j["target"]), "-rss_limit_mb=6000", "-timeout=300", "-verbosity=0"]
+        logp = os.path.join(work, "w%03d.log" % idx)
+        with open(logp, "w") as lf:
+            pr = subprocess.Popen(cmd, stdout=lf, stderr=subprocess.STDOUT, env=env)
+        rc = None
+        limit = j.get("timeout", 3600 if tier == "quick" else 8 * 3600)
+        while True:
+            try:
+                rc = pr.wait(timeout=0.5)
+                break
+            except subprocess.TimeoutExpired:
+                if stop.is_set():
+                    pr.kill(); pr.wait(); rc = "stopped"; break
+                if time.time() - t1 > limit:
+                    pr.kill(); pr.wait(); rc = None; break
+        txt = open(logp, errors="replace").read()
+        if rc not in (0, "stopped", None):
+            # a failing input: either our check wrote the case file, or a sanitizer/assertion fired and libFuzzer saved the raw bytes
+            m = re.search(r"VERIF-FUZZ case written to (\S+)", txt)
+            case = m.group(1) if m else None
+            if not case:
+                m2 = re.search(r"Test unit written to (\S*crash-\S+)", txt)
+                if m2 and os.path.exists(m2.group(1)):
+                    raw = open(m2.group(1), "rb").read()
+                    words = [int.from_bytes(raw[k:k + 4], "little") for k in range(0, len(raw) - len(raw) % 4, 4)]
+                    while words and words[-1] == 0:
+                        words.pop()
+                    case = m2.group(1) + ".case"
+                    with open(case, "w") as cf:
+                        cf.write("# verif case v1\nprop %s\ntarget %s\nvariant found by libFuzzer (sanitizer report / assertion)\ntape %s\n" % (j["prop"], j["replay_target"], " ".join(map(str, words))))
+            if case:
+                try:
+                    st = json.load(open(out)) if os.path.exists(out) else {}
+                except Exception:
+                    st = {}
+                st.update({"prop": j["prop"], "target": j["replay_target"], "variant": "libFuzzer", "failed": True, "replay": case})
+                for k, v in (("evaluations", 0), ("nontrivial", 0), ("labels", {}), ("maxima", {}), ("known_hits", {}), ("known_detail", {}), ("samples", []), ("enum_count", 0), ("enum_covered", 0)):
+                    st.setdefault(k, v)
+                st.setdefault("fail_class", "fuzz"); st.setdefault("fail_msg", "libFuzzer found a failing input")
+                json.dump(st, open(out, "w"))
+                jj = dict(j); jj["target"] = j["replay_target"]
+                return idx, jj, 1, txt, out, time.time() - t1
         return idx, j, rc, txt, out, time.time() - t1
 
     def handle(idx, j, rc, txt, out, dt):
